@@ -681,6 +681,14 @@ func (s *SpecValidator) validateParameters() *Result {
 			// Check parameters names uniqueness for operation
 			// TODO: should be done after param expansion
 			res.Merge(s.checkUniqueParams(path, method, op))
+			if paths := s.spec.Spec().Paths; paths != nil {
+				if pathItem, ok := paths.Paths[path]; ok && len(pathItem.Parameters) > 0 {
+					// the parameters shared at the path item level form a list of their own,
+					// which must not contain duplicates either
+					shared := &spec.Operation{OperationProps: spec.OperationProps{ID: op.ID, Parameters: pathItem.Parameters}}
+					res.Merge(s.checkUniqueParams(path, method, shared))
+				}
+			}
 
 			// pick the root schema from the swagger specification which describes a parameter
 			origSchema, ok := s.schema.Definitions["parameter"]
